@@ -17,7 +17,7 @@ Definition offending (e : err) (pre : list action) : Prop :=
 Lemma offending_cases e pre : offending e pre ->
   pre = [] \/ exists pa tn v src, e = EValue pa tn v src /\ pre = [Ev (mkEvent pa (TyN tn) (Some v))].
 Proof.
-  destruct e as [pa tn v [| |]| | | | | |]; cbn [offending]; intros H; try (left; exact H).
+  destruct e as [pa tn v [| | |]| | | | | |]; cbn [offending]; intros H; try (left; exact H).
   right. eexists _, _, _, _. split; [reflexivity|exact H].
 Qed.
 
